@@ -1,6 +1,7 @@
 import BufModel.ImagePaths
 import BufModel.LegacyStrip
 import BufModel.FindExtension
+import BufModel.OutFile
 import Driver.Util
 /-
   Line protocol for C11.
@@ -44,6 +45,14 @@ import Driver.Util
              fld = number,fopts,rest      fopts = ~ | weak;rest         rng = start,stop,rest
              (optional scalars: ~ = unset; booleans 0/1; rest = hash of everything the pass ignores)
       output: A <file: the caller's descriptor after the call> R <~ | file: the replacement>
+
+    ofh <TAB> ops <TAB> queries     OUTPUT-FILE HISTORY (BufModel.OutFile): what the paths hold at the end
+      ops     : space-separated   put:<path id>:<payload id>:<length>   buf writes an output (os.Create)
+                                  pre:<path id>:<payload id>:<length>   a foreign file (os.WriteFile)
+                                  ln:<path id>:<target id>  mkdir:<path id>  rm:<path id>
+      queries : ,-separated path ids
+      output  : <per op ok | err:<tag>, joined by ","> | <per query  id=empty | id=seg+seg… | id=err:<tag>>
+                seg = <payload id>:<from>:<to>   (bytes from..to-1 of that payload, at those offsets)
 -/
 namespace Driver.C11
 open BufModel.Path BufModel.ImagePaths Driver
@@ -399,8 +408,38 @@ def handle (tree queries : String) : String :=
 
 end FExt
 
+/-! ### ofh: output-file histories -/
+namespace OFH
+open BufModel.OutFile
+
+def parseOp (s : String) : Option (Op (Nat × Nat)) :=
+  match s.splitOn ":" with
+  | ["put", p, i, n] => do pure (.put (← p.toNat?) (payload (← i.toNat?) (← n.toNat?)))
+  | ["pre", p, i, n] => do pure (.pre (← p.toNat?) (payload (← i.toNat?) (← n.toNat?)))
+  | ["ln", p, t] => do pure (.ln (← p.toNat?) (← t.toNat?))
+  | ["mkdir", p] => do pure (.mkdir (← p.toNat?))
+  | ["rm", p] => do pure (.rm (← p.toNat?))
+  | _ => none
+
+def showSegs (c : List (Nat × Nat)) : String :=
+  match segments c with
+  | [] => "empty"
+  | segs => "+".intercalate (segs.map fun (i, lo, hi) => s!"{i}:{lo}:{hi}")
+
+def handle (ops queries : String) : String :=
+  match ((ops.splitOn " ").filter (· ≠ "")).mapM parseOp, (parseList queries ",").mapM (·.toNat?) with
+  | some ops, some qs =>
+    let (fs, res) := run ([] : FS (Nat × Nat)) ops
+    ",".intercalate (res.map fun | none => "ok" | some e => "err:" ++ e.tag) ++ " | " ++
+    " ".intercalate (qs.map fun q =>
+      toString q ++ "=" ++ (match readBack fs q with | .ok c => showSegs c | .error e => "err:" ++ e.tag))
+  | _, _ => "bad-op"
+
+end OFH
+
 def handle : List String → String
   | ["legacy", file] => Legacy.handleLegacy file
+  | ["ofh", ops, queries] => OFH.handle ops queries
   | ["fext", tree, queries] => FExt.handle tree queries
   | ["xflt", op, files, a, b] => handleXflt op files a b
   | ["iwop", allow, files, pths, excl] =>
